@@ -163,7 +163,8 @@ def part_history_switches():
                        ('DerivedByIdentity = TRUE/DerivedByIdentity = FALSE', 'HistoryIndependent'),
                        ('GuessEachTime = TRUE/GuessEachTime = FALSE', 'HistoryIndependent'), ('CountLive = TRUE/CountLive = FALSE', 'NoStaleCount'),
                        ('LabelLive = TRUE/LabelLive = FALSE', 'HistoryIndependent'), ('PayloadLive = TRUE/PayloadLive = FALSE', 'HistoryIndependent'),
-                       ('FileIdFollowsHeader = TRUE/FileIdFollowsHeader = FALSE', 'HistoryIndependent')):
+                       ('FileIdFollowsHeader = TRUE/FileIdFollowsHeader = FALSE', 'HistoryIndependent'),
+                       ('DimFollowsData = TRUE/DimFollowsData = FALSE', 'HistoryIndependent')):
         d = tempfile.mkdtemp(prefix='stspec', dir='/tmp')
         try:
             for f in os.listdir(lib.SPEC):
